@@ -59,6 +59,26 @@ pub fn cases(ctx: &Ctx) -> Vec<WCase> {
             }
             s.specs.push(sp);
         }
+        // a quarter of the two-peer cases lose their remote early (death or explicit disconnect) and
+        // the survivor plays on alone for thousands of frames
+        if s.peers.len() == 2 && i % 4 == 3 {
+            s.notify_ms = 300;
+            s.timeout_ms = 600;
+            s.link.drop = 0.0;
+            s.specs.clear();
+            s.link_overrides.clear();
+            if rr.chance(0.5) {
+                s.kill = Some(Kill { node: 1, at_ms: rr.range(2000, 6000), pdrop: rr.pick(&[0.0, 0.5]) });
+            } else {
+                let h = s.peers[1][0];
+                s.actions.push(Action { node: 0, when: Trigger::AtMs(rr.range(2000, 6000)), act: Act::Disconnect { h } });
+                s.notify_ms = 300_000;
+                s.timeout_ms = 600_000;
+            }
+            s.limit_ms = s.frames as u64 * 17 * 6 + 30_000;
+            out.push(wcase(format!("alone-{i}"), s));
+            continue;
+        }
         s.limit_ms = s.frames as u64 * 17 * 6 + 30_000;
         out.push(wcase(format!("long-{i}"), s));
     }
@@ -166,7 +186,8 @@ pub fn run_case(c: &WCase) -> Outcome {
             return out;
         }
     }
-    let frames_min = w.nodes.iter().filter(|n| !n.is_spec).map(|n| n.game.frame()).min().unwrap_or(0);
+    let alone = c.id.starts_with("alone");
+    let frames_min = w.nodes.iter().filter(|n| !n.is_spec && n.alive && (!alone || n.idx == 0)).map(|n| n.game.frame()).min().unwrap_or(0);
     out.nontrivial = frames_min >= 3000 && at_bound > 0;
     if frames_min < 3000 {
         out.inconclusive("fewer than 3000 frames before the virtual time cap");
@@ -182,7 +203,7 @@ pub fn check(ctx: &Ctx) -> i32 {
     let res = par_run(ctx, &cs, &|c: &WCase| c.id.clone(), &run_case);
     let meta = Meta {
         level: "exploration",
-        rule: "sessions of 3000 (quick), 5000 and 20000 (thorough) frames over all-local sessions ([[0]], [[0,1]]) and all P2P topologies, windows {0,2,8}, sparse on/off, detection interval {1,2}, clean and lossy links, events drained or never drained, spectators that are attentive / on a lossy link / silent from a random time on. The size hook is sampled after every API call and the maxima compared with bounds that depend only on the configuration: event_queue <= 100; pending_local_inputs <= #locals; outgoing_local_inputs <= delay+1 (0 without remotes); local_checksum_history <= 33; per endpoint pending_output <= 128+window+delay+2, recv_inputs <= 131+2*window+delay, pending_checksums <= 33, send_queue == 0 and event_queue <= 4 after a call; a silent spectator must be disconnected once the host has advanced 128+window+delay+80 frames past the silence. Second, independent monitor: the counting allocator tracks the live bytes that were allocated inside ggrs calls (whoever frees them); sampled every 500 frames from frame 1000 on, a violation needs a least-squares slope > 16 bytes/frame AND the last quarter's mean exceeding the first quarter's by > 64 KiB. Non-trivial: >= 3000 frames and at least one buffer reached its bound (event queue 100, checksum history 32, pending checksums 32, spectator pending output 128, recv_inputs 2*window+1). Distinct: configuration + trace hash.".into(),
+        rule: "sessions of 3000 (quick), 5000 and 20000 (thorough) frames over all-local sessions ([[0]], [[0,1]]) and all P2P topologies, windows {0,2,8}, sparse on/off, detection interval {1,2}, clean and lossy links, events drained or never drained, spectators that are attentive / on a lossy link / silent from a random time on; a quarter of the two-peer sessions lose their remote early (death, or explicit disconnect_player) and play on alone. The size hook is sampled after every API call and the maxima compared with bounds that depend only on the configuration: event_queue <= 100; pending_local_inputs <= #locals; outgoing_local_inputs <= delay+1 (0 without remotes); local_checksum_history <= 33; per endpoint pending_output <= 128+window+delay+2, recv_inputs <= 131+2*window+delay, pending_checksums <= 33, send_queue == 0 and event_queue <= 4 after a call; a silent spectator must be disconnected once the host has advanced 128+window+delay+80 frames past the silence. Second, independent monitor: the counting allocator tracks the live bytes that were allocated inside ggrs calls (whoever frees them); sampled every 500 frames from frame 1000 on, a violation needs a least-squares slope > 16 bytes/frame AND the last quarter's mean exceeding the first quarter's by > 64 KiB. Non-trivial: >= 3000 frames and at least one buffer reached its bound (event queue 100, checksum history 32, pending checksums 32, spectator pending output 128, recv_inputs 2*window+1). Distinct: configuration + trace hash.".into(),
         assumptions: std_assumptions(),
         floor_nontrivial: if ctx.quick() { 12 } else { 250 },
         exhaustive: None,
